@@ -310,8 +310,6 @@ def operator_sweep(run):
 
 def op_feature(op, combo, kind, cls, msg):
     types_ = {t for t, _ in combo}
-    if "Duration" in types_ and kind in ("sqlite", "mssql") and cls in ("CompileError", "StatementError", "UnsupportedCompilationError", "TypeError", "ArgumentError"):
-        return "duration_on_sqlite_mssql"
     if op.name.startswith("dur.") and kind == "postgres":
         return "postgres_dur_impl_returns_none"
     return f"op:{op.name}:{kind}:{cls}"
